@@ -69,6 +69,12 @@ impl Property for C01 {
         for (n, t, depth) in configs(ctx.tier) {
             bfs(ctx, n, t, depth, false, true, true, "violation");
         }
+        // every history up to a smaller depth without merging states: independent of what the
+        // canonical key can see of the implementation
+        for (n, t) in [(1usize, 1u64), (2, 3), (4, 5), (3, 2)] {
+            ctx.hit("exploration_without_state_merging");
+            bfs(ctx, n, t, ctx.tier.pick(5, 6), false, false, true, "violation");
+        }
         if ctx.tier == Tier::Thorough {
             // canon cross-check: dedup and no-dedup exploration must reach the same canonical keys
             for (i, (n, t)) in [(1usize, 1u64), (1, 3), (2, 1), (2, 3), (3, 2), (4, 5), (7, 2), (2, 1_000_000_000)].iter().enumerate() {
